@@ -192,6 +192,23 @@ func genOp(t *rapid.T, c *Case) *esmodel.Op {
 		if op.K == `s:"length"` && rapid.Bool().Draw(t, "lenval") {
 			op.V = "d:" + strconv.Itoa(rapid.SampledFrom([]int{0, 1, 2, 3, 4, 5000, 5001}).Draw(t, "len"))
 		}
+		if op.K == `s:"length"` && modelKind(subj.Kind) == "array" && op.R == "" && rapid.IntRange(0, 2).Draw(t, "advlen") == 0 {
+			// the new length is an object whose valueOf changes the array while it is being converted
+			adv := esmodel.Op{O: subj.Tag, Surf: "Reflect"}
+			switch rapid.IntRange(0, 3).Draw(t, "advop") {
+			case 0:
+				adv.Op, adv.K, adv.D = "define", `s:"length"`, &esmodel.Desc{HasW: true, W: false, Value: esmodel.Undef, Get: esmodel.Undef, Set: esmodel.Undef}
+			case 1:
+				adv.Op = "preventExt"
+			case 2:
+				adv.Op, adv.K, adv.D = "define", `s:"1"`, &esmodel.Desc{HasValue: true, Value: esmodel.Num(7), HasC: true, C: false, Get: esmodel.Undef, Set: esmodel.Undef}
+			default:
+				adv.Op = "freeze"
+				adv.Surf = "Object"
+			}
+			b, _ := json.Marshal(&adv)
+			op.V = "a:" + strconv.Itoa(rapid.SampledFrom([]int{0, 1, 2, 5, 5000}).Draw(t, "advret")) + "|" + string(b)
+		}
 	case "delete":
 		op.K = genKey(t, c)
 		if op.Surf == "Object" {
